@@ -582,7 +582,7 @@ def c04(ctx):
 
 @check("C13", ["C13_"])
 def c13(ctx):
-    files = directed_traces(ctx, "cksum", 8, {"VF_NFLIPS": 48 if ctx.quick else 2000})
+    files = directed_traces(ctx, "cksum", 8, {"VF_NFLIPS": 48 if ctx.quick else 250})
     files += handshake_family(ctx, opts_quick=(0, 4, 8, 12), nbeh_quick=20, nbeh_thorough=150)
     files += xfer_traces(ctx, ["basic", "lossy", "pr", "il"], 64, 2000)
     ctx.validate(files)
@@ -682,6 +682,21 @@ def c18(ctx):
     files = directed_traces(ctx, "api", 8)
     files += directed_traces(ctx, "shutdown", 8, {"VF_FULL": "0"})
     files += directed_traces(ctx, "reconfig", 8, {"VF_FULL": "0"})
+    # vacuity guard: the scenarios this property is about must really have happened in the recorded runs
+    need = {"short-buffer read": '"err":"short"', "read deadline expiry": '"err":"deadline"', "rejected oversize write": '"err":"toolarge"',
+            "write on a closed stream": '"err":"streamclosed"', "write on an association that is not established": '"err":"notestablished"'}
+    seen = {k: 0 for k in need}
+    for f in files:
+        with open(f) as fh:
+            for line in fh:
+                if '"ev":"read"' in line or '"ev":"write"' in line:
+                    for k, pat in need.items():
+                        if pat in line:
+                            seen[k] += 1
+    ctx.notes.append("api/shutdown/reconfig family coverage (events): " + ", ".join("%s=%d" % kv for kv in sorted(seen.items())))
+    for k, v in seen.items():
+        if v == 0:
+            raise L.MachineryError("vacuous API scenarios: no %s occurred in any recorded scenario" % k)
     files += xfer_traces(ctx, ["basic", "lossy", "il"], 64, 2000)
     # the delivery monitors must keep holding around rejected / failed calls
     ctx.validate(files)
@@ -784,7 +799,7 @@ def c03(ctx):
     # recv component: inbound-driven structure must not panic either
     recv_component(ctx, "C03")
     ctx.validate(files)
-    ctx.notes.append("adversary: 7 association situations x 43 invalid/misplaced packet classes x DATA/I-DATA x both endpoints, each followed by normal "
+    ctx.notes.append("adversary: 8 association situations x 48 invalid/misplaced packet classes x DATA/I-DATA x both endpoints, each followed by normal "
                      "traffic to completion; fuzz: seeded mutations (bit flips, truncation, length edits, splices, garbage) of genuine packets; "
                      "'all byte strings' is sampled, not enumerated (DESIGN section 6)")
 
@@ -815,7 +830,22 @@ def lockorder_family(ctx):
         if p.returncode != 0:
             raise L.MachineryError("lockorder-rt failed: " + (p.stdout + p.stderr)[-2000:])
     ctx.distinct.add(("lock-order-episodes",))
-    return sorted(glob.glob(os.path.join(out, "lockorder-rt-*.ndjson")))
+    # association lock vs. stream lock vs. write lock (StreamLock.tla, two negative controls); bound by lockapi-rt: the read
+    # loop parked in an inbound handler while every public call on that stream is started
+    ctx.tlc_design("StreamLock", "StreamLock_ok.cfg", workers=2, timeout=300)
+    for c, why in (("neg_close", "Close keeping the stream lock across the reset request"), ("neg_cb", "the released-bytes callback running under the association lock")):
+        neg = L.run_tlc(ctx.scr, "StreamLock", "StreamLock_%s.cfg" % c, workers=1, timeout=300)
+        if "NoDeadlock" not in neg["invariant_violated"]:
+            raise L.MachineryError("negative control failed: StreamLock with %s must deadlock\n" % why + neg["out"][-1500:])
+        ctx.design.append({"module": "StreamLock", "cfg": "StreamLock_%s.cfg (negative control: deadlock expected and found)" % c, "distinct": neg["distinct"],
+                           "generated": neg["generated"], "wall_s": neg["wall_s"], "ok": True, "cmd": neg["cmd"]})
+    n = 8 if ctx.quick else 16
+    ps = L.run_shards(binp, "lockapi-rt", out, n, {})
+    for p in ps:
+        if p.returncode != 0:
+            raise L.MachineryError("lockapi-rt failed: " + (p.stdout + p.stderr)[-2000:])
+    ctx.distinct.add(("lock-api-episodes",))
+    return sorted(glob.glob(os.path.join(out, "lockorder-rt-*.ndjson")) + glob.glob(os.path.join(out, "lockapi-rt-*.ndjson")))
 
 
 def lifecycle_design(ctx):
